@@ -121,7 +121,16 @@ func c10Run(w *W) {
 	for i := 0; i < nStart; i++ {
 		sr := &startRec{}
 		starts = append(starts, sr)
+		// the first starter goes at once; the others at tape-chosen steps, so
+		// that a Start may also find the service running or already finished
+		startAt := 0
+		if i > 0 {
+			startAt = simrt.Choose(150)
+		}
 		simrt.Spawn(fmt.Sprintf("starter%d", i), func() {
+			if startAt > 0 {
+				simrt.WaitStep(startAt)
+			}
 			sr.err = s.Start(pctx)
 			sr.ret = h.Tick()
 			sr.done = true
